@@ -1,5 +1,411 @@
-"""stub"""
+"""C06 — every supported model name is recognised as itself; unknown models are rejected (DESIGN.md §4 C06)."""
+from __future__ import annotations
+
+import ast
+import re
+
+from ..core import guards
+from ..core import pyfacts as pf
+from ..core.defuse import flow_of
+from ..core.larkfacts import grammar_facts
+from ..core.match import phi_alts, txt
 from ..core.source import AnchorMissing
-PROP="C06"
+from .common import DEC, DECGRAMMAR, ENUMS, ckey, fn, returns, stmt_of, where
+
+PROP = "C06"
+FILES = [DEC, DECGRAMMAR, ENUMS]
+EXPLANATION = (
+    "Premises of the lexing lemma (DESIGN.md C06): C06.1 the string injected into MODEL_NAME is "
+    "(?:a1|…|an) with ai = re.escape(name), names = published ∪ registered (whole sequences), longest first, and it "
+    "replaces exactly the grammar's placeholder of the MODEL_NAME terminal; C06.2 MODEL_NAME = placeholder + \\b with "
+    "priority above LABEL; C06.3 the 135 published names are word-like, pairwise distinct and every proper-prefix pair "
+    "continues with a word character; C06.4 the model rule offers MODEL_NAME [options] or a model_label; C06.5 an "
+    "undefined model_label always ends in raise and every model_label goes through that lookup; C06.6 the names "
+    "registered by the user are read when the terminal callback runs (no stale capture, no one-shot iterator); "
+    "C06.7 registration keeps earlier names and stores all new ones.")
+NOT_DECIDED = ["Lark's lexer semantics (trusted)", "user-registered names ending in '-' (assumption on user input)"]
+G = DECGRAMMAR
+GP = f"src/decaylanguage/{DECGRAMMAR}"
+CB = "DecFileParser._generate_edit_terminals_callback"
+
+
 def run(ctx, ss):
-    raise AnchorMissing("rules not built yet")
+    for r, f in (("C06.1", c06_1), ("C06.2", c06_2), ("C06.3", c06_3), ("C06.4", c06_4), ("C06.5", c06_5),
+                 ("C06.6", c06_6), ("C06.7", c06_7)):
+        ctx.guard(r, f, ss)
+
+
+def known_models(ss) -> tuple:
+    tree = ss.tree(ENUMS)
+    for st in tree.body:
+        if isinstance(st, ast.Assign) and any(isinstance(t, ast.Name) and t.id == "known_decay_models" for t in st.targets):
+            try:
+                v = ast.literal_eval(st.value)
+            except Exception as e:
+                raise AnchorMissing(f"known_decay_models is not a literal table: {e}")
+            return tuple(v)
+    raise AnchorMissing("known_decay_models not found")
+
+
+def seq_parts(e: ast.AST) -> tuple[set[str], list[str]]:
+    """Abstract evaluation of a sequence-building expression: (atoms included whole, problems)."""
+    atoms: set[str] = set()
+    problems: list[str] = []
+
+    def go(x):
+        if isinstance(x, ast.Call) and isinstance(x.func, ast.Name) and x.func.id == "__phi__":
+            problems.append("phi")
+            return
+        if isinstance(x, ast.Call) and isinstance(x.func, ast.Name) and x.func.id in ("tuple", "list", "iter", "sorted") and len(x.args) == 1:
+            return go(x.args[0])
+        if isinstance(x, ast.Call) and txt(x.func) in ("chain.from_iterable", "itertools.chain.from_iterable") and len(x.args) == 1 \
+                and isinstance(x.args[0], (ast.List, ast.Tuple)):
+            for el in x.args[0].elts:
+                go(el)
+            return
+        if isinstance(x, ast.Call) and txt(x.func) in ("chain", "itertools.chain"):
+            for el in x.args:
+                go(el.value if isinstance(el, ast.Starred) else el)
+            return
+        if isinstance(x, (ast.Tuple, ast.List)):
+            for el in x.elts:
+                if isinstance(el, ast.Starred):
+                    go(el.value)
+                else:
+                    atoms.add("elem:" + txt(el))
+            return
+        if isinstance(x, ast.BinOp) and isinstance(x.op, ast.Add):
+            go(x.left)
+            go(x.right)
+            return
+        if isinstance(x, ast.BoolOp) and isinstance(x.op, ast.Or) and len(x.values) == 2 and isinstance(x.values[1], (ast.Tuple, ast.List)) \
+                and not x.values[1].elts:
+            return go(x.values[0])          # `X or ()`
+        if isinstance(x, ast.IfExp):
+            # `A if cond else B`: both must be understood; atoms of either branch count only if in both
+            a1, p1 = seq_parts(x.body)
+            a2, p2 = seq_parts(x.orelse)
+            problems.extend(p1 + p2)
+            atoms.update(a1 & a2)
+            for extra in (a1 ^ a2):
+                atoms.add("maybe:" + extra)
+            return
+        if isinstance(x, (ast.Name, ast.Attribute)):
+            atoms.add(txt(x))
+            return
+        if isinstance(x, ast.Subscript):
+            problems.append(f"slice/index `{txt(x)[:60]}`")
+            return
+        if isinstance(x, (ast.ListComp, ast.GeneratorExp, ast.SetComp)):
+            problems.append(f"comprehension `{txt(x)[:60]}`")
+            return
+        if isinstance(x, ast.Constant) and x.value in ((), None):
+            return
+        problems.append(f"`{txt(x)[:60]}`")
+    go(e)
+    return atoms, problems
+
+
+def c06_1(ctx, ss):
+    ff, flow = fn(ss, DEC, f"{CB}.edit_model_name_terminals")
+    ctx.count("functions")
+    gf = grammar_facts(ss, G)
+    # the replace call
+    reps = [c for c in pf.calls_in(ff.node) if isinstance(c.func, ast.Attribute) and c.func.attr == "replace" and len(c.args) == 2]
+    if len(reps) != 1:
+        raise AnchorMissing("edit_model_name_terminals: expected one .replace(placeholder, alternation)")
+    rep = reps[0]
+    st = stmt_of(ff, rep)
+    k = ckey(ff, None, "inject")
+    # placeholder agrees with the grammar
+    ph = rep.args[0].value if isinstance(rep.args[0], ast.Constant) else None
+    gpat = gf.term_regex("MODEL_NAME")
+    if ph is None or ph not in gpat:
+        ctx.violation("C06.1", k + " :: placeholder", where(ff, rep), f"replaces {ph!r}, which does not occur in the grammar's MODEL_NAME pattern {gpat!r}: no model name is ever injected")
+    else:
+        ctx.holds("C06.1", k + " :: placeholder", where(ff, rep), f"placeholder {ph!r} is the one in the MODEL_NAME terminal", 2)
+    # target and guard
+    tgt_ok = isinstance(st, ast.Assign) and txt(st.targets[0]) == "t.pattern.value" and txt(rep.func.value) == "t.pattern.value"
+    conds = [c for c in guards.path_conditions(ff.node, st) if c[0] == "if"]
+    guard_ok = len(conds) == 1 and conds[0][2] and txt(conds[0][1]) in ("t.name == 'MODEL_NAME'", "'MODEL_NAME' == t.name")
+    if tgt_ok and guard_ok:
+        ctx.holds("C06.1", k + " :: target", where(ff, st), "t.pattern.value is rewritten exactly for the terminal named MODEL_NAME", 2)
+    else:
+        ctx.violation("C06.1", k + " :: target", where(ff, st), "the injected pattern is not stored into t.pattern.value of exactly the MODEL_NAME terminal")
+    # shape of the alternation
+    alt = flow.expand(rep.args[1])
+    shape_ok, why, names_expr = False, "", None
+    if isinstance(alt, ast.JoinedStr):
+        parts = alt.values
+        consts = [p.value for p in parts if isinstance(p, ast.Constant)]
+        fvs = [p for p in parts if isinstance(p, ast.FormattedValue)]
+        if "".join(consts) == "(?:)" and len(fvs) == 1 and isinstance(parts[0], ast.Constant) and parts[0].value == "(?:" \
+                and isinstance(parts[-1], ast.Constant) and parts[-1].value == ")":
+            j = fvs[0].value
+            if isinstance(j, ast.Call) and isinstance(j.func, ast.Attribute) and j.func.attr == "join" and isinstance(j.func.value, ast.Constant) \
+                    and j.func.value.value == "|" and len(j.args) == 1:
+                gen = j.args[0]
+                if isinstance(gen, (ast.GeneratorExp, ast.ListComp)) and len(gen.generators) == 1 and not gen.generators[0].ifs:
+                    elt = gen.elt
+                    tgt = gen.generators[0].target
+                    a0 = elt.args[0] if isinstance(elt, ast.Call) and len(elt.args) == 1 else None
+                    binder_ok = a0 is not None and (
+                        (isinstance(a0, ast.Name) and isinstance(tgt, ast.Name) and a0.id == tgt.id) or
+                        (isinstance(a0, ast.Call) and txt(a0.func) == "__elem__" and txt(a0.args[0]) == txt(gen.generators[0].iter)))
+                    if isinstance(elt, ast.Call) and txt(elt.func) == "re.escape" and binder_ok and not elt.keywords:
+                        it = gen.generators[0].iter
+                        # sorted(D, key=len, reverse=True)
+                        if isinstance(it, ast.Call) and isinstance(it.func, ast.Name) and it.func.id == "sorted" and len(it.args) == 1:
+                            kw = {q.arg: q.value for q in it.keywords}
+                            keyt = txt(kw["key"]) if "key" in kw else None
+                            rev = kw.get("reverse")
+                            longest_first = (keyt == "len" and isinstance(rev, ast.Constant) and rev.value is True) or \
+                                            (keyt in ("lambda x: -len(x)", "lambda s: -len(s)", "lambda m: -len(m)") and rev is None)
+                            if longest_first:
+                                shape_ok, names_expr = True, it.args[0]
+                            else:
+                                why = f"alternatives are not ordered longest first (`{txt(it)[:80]}`)"
+                        else:
+                            why = f"alternatives are not sorted by length (`{txt(it)[:80]}`)"
+                    else:
+                        why = f"an alternative is `{txt(elt)[:60]}`, not re.escape(name)"
+                else:
+                    why = "the joined sequence is filtered or not a single comprehension"
+            else:
+                why = "alternatives are not joined with '|'"
+        else:
+            why = f"the alternation is not wrapped as (?:…): constants {consts}"
+    else:
+        why = f"injected value `{txt(alt)[:100]}` is not an f-string alternation"
+    if shape_ok:
+        ctx.holds("C06.1", k + " :: shape", where(ff, rep), "alternation = (?: '|'.join(re.escape(n) for n in sorted(names, longest first)) )", 6)
+    else:
+        ctx.violation("C06.1", k + " :: shape", where(ff, rep), f"injected MODEL_NAME alternation: {why}")
+        return
+    # names = published ∪ registered on every branch
+    alts_ = phi_alts(names_expr)
+    ok_all = True
+    for a in alts_:
+        atoms, problems = seq_parts(a)
+        has_known = "known_decay_models" in atoms
+        reg = "self._additional_decay_models" in atoms
+        if problems:
+            ctx.violation("C06.1", k + " :: names", where(ff, rep), f"the name list `{txt(a)[:100]}` contains {problems[0]}: some published or registered names are dropped")
+            ok_all = False
+        elif not has_known:
+            ctx.violation("C06.1", k + " :: names", where(ff, rep), f"the name list `{txt(a)[:100]}` does not contain all of known_decay_models")
+            ok_all = False
+        elif not reg and len(alts_) == 1:
+            ctx.violation("C06.1", k + " :: names", where(ff, rep), f"the name list `{txt(a)[:100]}` never contains the names registered by the user")
+            ok_all = False
+    if ok_all:
+        if len(alts_) > 1 and not any("self._additional_decay_models" in seq_parts(a)[0] for a in alts_):
+            ctx.violation("C06.1", k + " :: names", where(ff, rep), "no branch of the name list contains the names registered by the user")
+        else:
+            ctx.holds("C06.1", k + " :: names", where(ff, rep), "name list ⊇ known_decay_models on every branch and ⊇ registered names when there are any", len(alts_) + 1)
+
+
+def c06_2(ctx, ss):
+    gf = grammar_facts(ss, G)
+    t = gf.terminals.get("MODEL_NAME")
+    lab = gf.terminals.get("LABEL")
+    if t is None or lab is None:
+        raise AnchorMissing("MODEL_NAME / LABEL terminal not found")
+    pat = t.pattern.to_regexp()
+    m = re.fullmatch(r"([A-Za-z_]+)\\b", pat)
+    if m:
+        ctx.holds("C06.2", f"{G}:MODEL_NAME:boundary", GP, f"MODEL_NAME = <{m.group(1)}> followed by a word boundary", 2)
+    else:
+        ctx.violation("C06.2", f"{G}:MODEL_NAME:boundary", GP, f"MODEL_NAME pattern {pat!r} is not `placeholder\\b`: a label that extends a model name would be split")
+    others = [(n, x.priority) for n, x in gf.terminals.items() if n not in ("MODEL_NAME",) and x.priority >= t.priority]
+    if t.priority > lab.priority and not others:
+        ctx.holds("C06.2", f"{G}:MODEL_NAME:priority", GP, f"priority {t.priority} above LABEL ({lab.priority}) and every other terminal", len(gf.terminals))
+    else:
+        ctx.violation("C06.2", f"{G}:MODEL_NAME:priority", GP, f"MODEL_NAME (priority {t.priority}) is not scanned before {others[:3] or 'LABEL'}: model words lex as labels")
+
+
+def c06_3(ctx, ss):
+    names = known_models(ss)
+    W = f"src/decaylanguage/{ENUMS}"
+    ctx.count("model_names", len(names))
+    ctx.floor("C06.3", "published model names", len(names), 135)
+    bad = [n for n in names if not re.fullmatch(r"\w[\w-]*\w", n)]
+    if bad:
+        ctx.violation("C06.3", f"{ENUMS}:names:wordlike", W, f"published name(s) {bad[:3]} do not start and end with a word character (the \\b after the alternation cannot match as intended)", len(names))
+    else:
+        ctx.holds("C06.3", f"{ENUMS}:names:wordlike", W, f"all {len(names)} names match \\w[\\w-]*\\w", len(names))
+    dup = sorted({n for n in names if names.count(n) > 1})
+    if dup:
+        ctx.violation("C06.3", f"{ENUMS}:names:distinct", W, f"duplicated name(s) {dup[:3]}", len(names))
+    else:
+        ctx.holds("C06.3", f"{ENUMS}:names:distinct", W, "names are pairwise distinct", len(names))
+    pairs = [(a, b) for a in names for b in names if a != b and b.startswith(a)]
+    badp = [(a, b) for a, b in pairs if not re.match(r"\w", b[len(a)])]
+    ctx.count("prefix_pairs", len(pairs))
+    if badp:
+        a, b = badp[0]
+        ctx.violation("C06.3", f"{ENUMS}:names:prefix", W, f"{a!r} is a prefix of {b!r} followed by the non-word character {b[len(a)]!r}: "
+                      f"a label such as {b + 'x'!r} lexes as model {a!r}", len(pairs))
+    else:
+        ctx.holds("C06.3", f"{ENUMS}:names:prefix", W, f"all {len(pairs)} proper-prefix pairs continue with a word character", max(1, len(pairs)))
+
+
+def c06_4(ctx, ss):
+    gf = grammar_facts(ss, G)
+    words = set(gf.word_strs("model"))
+    need = {"K:MODEL_NAME", "K:MODEL_NAME T:model_options", "T:model_label"}
+    if need <= words and words <= need:
+        ctx.holds("C06.4", f"{G}:model", GP, "model = MODEL_NAME [model_options] | model_label", len(words))
+    else:
+        ctx.violation("C06.4", f"{G}:model", GP, f"model can have children {sorted(words)}; expected exactly {sorted(need)}")
+    # a decay line has exactly one model
+    dl = gf.word_strs("decayline")
+    if all(w.split().count("T:model") == 1 for w in dl):
+        ctx.holds("C06.4", f"{G}:decayline:one-model", GP, "every decay line has exactly one model node", len(dl))
+    else:
+        ctx.violation("C06.4", f"{G}:decayline:one-model", GP, "a decay line can have no model or several")
+
+
+def c06_5(ctx, ss):
+    ff, flow = fn(ss, DEC, "DecayModelAliasReplacement._replacement")
+    rets = returns(ff)
+    if not rets:
+        raise AnchorMissing("_replacement has no return")
+    p = ff.params[1] if len(ff.params) > 1 else None
+
+    def atom_missing(e):
+        e2 = flow.expand(e)
+        if isinstance(e2, ast.Compare) and len(e2.ops) == 1 and isinstance(e2.ops[0], (ast.In, ast.NotIn)) \
+                and txt(e2.comparators[0]) == "self.define_defs" and txt(e2.left) in (f"{p}.value", f"str({p})", p):
+            return isinstance(e2.ops[0], ast.NotIn)
+        return None
+    ok = True
+    for r in rets:
+        conds = guards.path_conditions(ff.node, r)
+        reach = guards.reachable_under([c for c in conds if c[0] in ("if", "while")], atom_missing, flow)
+        in_handler = any(c[0] == "exc" for c in conds)
+        if reach is not False or in_handler:
+            ok = False
+            ctx.violation("C06.5", ckey(ff, r), where(ff, r), f"an undefined model label can reach `{txt(r)[:80]}`: the line is accepted with some other model instead of failing")
+    # fall-through
+    falls = flow.cfg.reachable(flow.cfg.entry, flow.cfg.exit, avoid={flow.cfg.node_of(r) for r in rets}, skip_labels=("exc", "raise", "assertfail"))
+    if falls:
+        ok = False
+        ctx.violation("C06.5", ckey(ff, None, "fallthrough"), where(ff, ff.node), "_replacement can finish without returning or raising")
+    raises = [n for n in pf.walk_no_nested(ff.node) if isinstance(n, ast.Raise)]
+    if not raises:
+        ok = False
+        ctx.violation("C06.5", ckey(ff, None, "no-raise"), where(ff, ff.node), "_replacement never raises")
+    if ok:
+        ctx.holds("C06.5", ckey(ff, None, "must-raise"), where(ff, raises[0]), "with the label absent from the alias table every path ends in raise", len(rets) + len(raises))
+    # the lookup table is the constructor argument
+    cf, cflow = fn(ss, DEC, "DecayModelAliasReplacement.__init__")
+    st = [s for s in pf.iter_stmts(cf.node.body) if isinstance(s, ast.Assign) and txt(s.targets[0]) == "self.define_defs"]
+    if len(st) == 1 and txt(cflow.expand(st[0].value)) in ("model_alias_defs or {}", "model_alias_defs", "dict(model_alias_defs or {})"):
+        ctx.holds("C06.5", ckey(cf, None, "table"), where(cf, st[0]), "the lookup table is the constructor argument", 1)
+    else:
+        ctx.violation("C06.5", ckey(cf, None, "table"), where(cf, cf.node), "the alias lookup table is not the table passed by parse()")
+    # model(): every model_label child goes through _replacement
+    mf_, mflow = fn(ss, DEC, "DecayModelAliasReplacement.model")
+    arg = mf_.params[1]
+    rets = returns(mf_)
+    routed = False
+    for r in rets:
+        conds = guards.path_conditions(mf_.node, r)
+        is_tree_branch = any(kind == "if" and pol and txt(e).replace(" ", "") == f"isinstance({arg}[0],Tree)" for kind, e, pol in conds)
+        v = mflow.expand(r.value)
+        calls = [c for c in ast.walk(v) if isinstance(c, ast.Call) and txt(c.func) == "self._replacement"]
+        if is_tree_branch:
+            if len(calls) == 1 and len(calls[0].args) == 1 and txt(calls[0].args[0]) == f"{arg}[0].children[0]":
+                routed = True
+                ctx.holds("C06.5", ckey(mf_, r), where(mf_, r), "a model_label child is replaced by self._replacement(<its token>)", 2)
+            else:
+                ctx.violation("C06.5", ckey(mf_, r), where(mf_, r), f"a model_label child is not looked up: returns `{txt(v)[:100]}`")
+        else:
+            if calls:
+                continue
+            # non-label branch must keep the children unchanged
+            if not (isinstance(v, ast.Call) and txt(v.func) == "Tree" and len(v.args) == 2 and txt(v.args[1]) == arg):
+                ctx.violation("C06.5", ckey(mf_, r), where(mf_, r), f"a MODEL_NAME-headed model is rewritten: `{txt(v)[:100]}`")
+    if not routed:
+        ctx.violation("C06.5", ckey(mf_, None, "routing"), where(mf_, mf_.node), "no branch of model() routes a model_label through the alias lookup")
+
+
+def c06_6(ctx, ss):
+    """Stale capture: the registered names must be read when the callback RUNS, or every
+    writer of the names must invalidate the cached grammar info; and what is stored
+    must be re-iterable."""
+    outer, oflow = fn(ss, DEC, CB)
+    inner, iflow = fn(ss, DEC, f"{CB}.edit_model_name_terminals")
+
+    def reads(node):
+        return [a for a in pf.walk_no_nested(node) if isinstance(a, ast.Attribute) and a.attr == "_additional_decay_models"
+                and isinstance(a.ctx, ast.Load)]
+    inner_reads = reads(inner.node)
+    outer_reads = [a for a in reads(outer.node)]
+    outer_only = [a for a in outer_reads if not any(a is b for b in inner_reads)]
+    # writers
+    mf = pf.module_facts(ss, DEC)
+    writers = []
+    for q, f_ in mf.funcs.items():
+        for n in pf.walk_no_nested(f_.node):
+            if isinstance(n, (ast.Assign, ast.AnnAssign, ast.AugAssign)):
+                ts = n.targets if isinstance(n, ast.Assign) else [n.target]
+                if any(isinstance(t, ast.Attribute) and t.attr == "_additional_decay_models" for t in ts):
+                    writers.append((f_, n))
+    k = ckey(outer, None, "stale-capture")
+    if inner_reads and not outer_only:
+        ctx.holds("C06.6", k, where(inner, inner_reads[0]), "registered names are read inside the terminal callback, i.e. each time a parser is built", len(inner_reads))
+    else:
+        # capture at creation: acceptable only if every later writer invalidates the cache
+        bad = []
+        for f_, n in writers:
+            if f_.qualname == "DecFileParser.__init__":
+                continue
+            inval = [s for s in pf.iter_stmts(f_.node.body) if isinstance(s, ast.Assign) and
+                     any(txt(t) in ("self._grammar", "self._grammar_info") for t in s.targets)] or \
+                    [c for c in pf.calls_in(f_.node) if txt(c.func) == "self._load_grammar"]
+            if not inval:
+                bad.append(f_)
+        if bad:
+            ctx.violation("C06.6", k, where(outer, outer.node),
+                          f"the model-name callback captures self._additional_decay_models when the grammar is first loaded, and "
+                          f"{bad[0].qualname} changes the names without invalidating the cached grammar info: names registered after "
+                          "grammar()/grammar_info()/a first parse() are ignored")
+        else:
+            ctx.holds("C06.6", k, where(outer, outer.node), "every writer of the registered names invalidates the cached grammar info", len(writers))
+    # re-iterable storage
+    for f_, n in writers:
+        fl = flow_of(ss, f_)
+        v = n.value
+        if v is None or (isinstance(v, ast.Constant) and v.value is None):
+            continue
+        t = txt(v)
+        kk = ckey(f_, None, "reiterable:" + ("concat" if "self._additional_decay_models" in t else "first"))
+        one_shot = isinstance(v, ast.Call) and (txt(v.func) in ("chain", "chain.from_iterable", "itertools.chain", "itertools.chain.from_iterable", "iter", "map", "filter", "zip")) \
+            or isinstance(v, ast.GeneratorExp)
+        if one_shot:
+            ctx.violation("C06.6", kk, where(f_, n), f"the registered names are stored as a one-shot iterator (`{t[:80]}`): they are exhausted by the first use and gone afterwards")
+        else:
+            ctx.holds("C06.6", kk, where(f_, n), f"stored value `{t[:60]}` is re-iterable", 1)
+    ctx.floor("C06.6", "writers of _additional_decay_models", len(writers), 2)
+
+
+def c06_7(ctx, ss):
+    ff, flow = fn(ss, DEC, "DecFileParser.load_additional_decay_models")
+    stores = [s for s in pf.iter_stmts(ff.node.body) if isinstance(s, ast.Assign) and txt(s.targets[0]) == "self._additional_decay_models"]
+    if not stores:
+        raise AnchorMissing("load_additional_decay_models stores nothing")
+    for s in stores:
+        atoms, problems = seq_parts(s.value)
+        conds = [c for c in guards.path_conditions(ff.node, s) if c[0] == "if"]
+        first = any(("is None" in txt(e)) == pol for _, e, pol in conds) if conds else False
+        k = ckey(ff, None, "first" if first else "more")
+        if problems:
+            ctx.violation("C06.7", k, where(ff, s), f"registration stores `{txt(s.value)[:80]}` ({problems[0]}): some names are dropped")
+        elif "models" not in atoms:
+            ctx.violation("C06.7", k, where(ff, s), f"registration stores `{txt(s.value)[:80]}`, which does not contain all the given names")
+        elif not first and "self._additional_decay_models" not in atoms:
+            ctx.violation("C06.7", k, where(ff, s), "a second registration forgets the names registered earlier")
+        else:
+            ctx.holds("C06.7", k, where(ff, s), "all given names are stored" + ("" if first else " after the earlier ones"), 1)
